@@ -159,7 +159,7 @@ def written(style, e):
     if style == "typescript":
         return e.replace("*/", "*\\/")
     if style == "pydoc":
-        # backslashes doubled first (fix: commit 37d8a26), then `"""` escaped
+        # backslashes doubled first (fix: commit af54d85), then `"""` escaped
         return e.replace("\\", "\\\\").replace('"""', '\\"\\"\\"')
     if style == "swift":
         return rust_trim_end(e)
